@@ -50,6 +50,14 @@ CHECKS["C09"] = dict(
     ref="DESIGN.md §5 C09",
 )
 
+CHECKS["C08"] = dict(
+    level="exploration",
+    text="Differential runtime monitoring: the two writers and the tree serializer on the same object (infoset comparison by libxml2, QName values resolved), and the two handlers on the same well-formed document across nine source kinds (bytes, str, Path, file name, file object, lxml tree/element, ElementTree tree/element), on serializer output, harness rewrites of it and 20-400 KiB mixed-content documents that cross the parsers' read buffers. Held on the executions produced.",
+    note="Trusted: libxml2/vf.xmlkit for infoset comparison, vf/rewrite.py for variants. ElementTree sources are not fed documents with QName content (documented prefix loss).",
+    technique="runtime monitoring: differential oracle across backends and source kinds",
+    ref="DESIGN.md §5 C08",
+)
+
 FIX_COMMITS = []  # guarded hook commits in /repo (none: all hooks are installed from the harness side)
 
 
